@@ -1,0 +1,71 @@
+//go:build verif
+
+package pubsub
+
+// Machine-checked contracts for the gowp verifier (/verif). Comment-only; compiled only under the
+// build tag "verif"; declares nothing.
+//
+// Delivery to sockets happens in per-message goroutines (Channel.Start) and is outside these contracts; what is
+// proved is the subscription table and the routing of a published message into the per-channel queues. A send on a
+// channel's message queue is recorded by the ghosts $chansent (values sent so far) and $chanlast (the last one).
+
+// queue(c): the channel object that carries c's messages.
+//@ spec queue(c *Channel) Ref = deref(c.messageChan)
+
+//@ type Channel
+//@   invariant alloc: this.subscribers != nil && this.messageChan != nil
+
+//@ func (*Channel).Subscribe props C18
+//@   preserves alloc
+//@   ensures {C18} subscribed: result && has(ch.subscribers, conn)
+//@   ensures {C18} others: forall c *net.Conn :: c != conn ==> (has(ch.subscribers, c) <==> old(has(ch.subscribers, c))) && ch.subscribers[c] == old(ch.subscribers[c])
+//@   ensures {C18} kept: old(has(ch.subscribers, conn)) ==> ch.subscribers[conn] == old(ch.subscribers[conn])
+//@   modifies ch.subscribers[*]
+
+//@ func (*Channel).Unsubscribe noalloc props C18
+//@   preserves alloc
+//@   ensures {C18} removed: !has(ch.subscribers, conn) && result == old(has(ch.subscribers, conn))
+//@   ensures {C18} others: forall c *net.Conn :: c != conn ==> (has(ch.subscribers, c) <==> old(has(ch.subscribers, c))) && ch.subscribers[c] == old(ch.subscribers[c])
+//@   modifies ch.subscribers[*]
+
+//@ func (*Channel).IsActive noalloc props C18
+//@   ensures result == (len(ch.subscribers) > 0)
+//@   modifies nothing
+
+//@ func (*Channel).NumSubs noalloc props C18
+//@   ensures result == len(ch.subscribers)
+//@   modifies nothing
+
+//@ func (*Channel).Publish noalloc props C18
+//@   requires ch.messageChan != nil
+//@   ensures {C18} queued: $chansent[queue(ch)] == old($chansent[queue(ch)]) + 1 && $chanlast[queue(ch)] == boxed(message)
+//@   ensures {C18} others: forall q Ref :: q != queue(ch) ==> $chansent[q] == old($chansent[q]) && $chanlast[q] == old($chanlast[q])
+//@   modifies $chansent, $chanlast
+
+// A pattern channel always carries its compiled pattern (pattern != nil is what marks a channel as a pattern channel).
+//@ func WithPattern$1 props C18
+//@   requires channel != nil
+//@   ensures {C18} ispattern: channel.name == pattern && channel.pattern != nil
+//@   modifies channel.name, channel.pattern
+
+//@ func WithName$1 props C18
+//@   requires channel != nil
+//@   ensures {C18} named: channel.name == name && channel.pattern == old(channel.pattern)
+//@   modifies channel.name
+
+// routes(c, name): a message published to `name` goes to channel c.
+//@ spec routes(c *Channel, name string) bool = c.pattern == nil ? c.name == name : globmatch(c.pattern, name)
+
+//@ func (*PubSub).Publish props C18
+//@   requires wf: forall i int :: 0 <= i && i < len(ps.channels) ==> ps.channels[i] != nil && ps.channels[i].messageChan != nil
+//@   assumes own-queues: forall i int, j int :: 0 <= i && i < j && j < len(ps.channels) ==> queue(ps.channels[i]) != queue(ps.channels[j])
+//@   ensures {C18} routed: forall i int :: 0 <= i && i < len(ps.channels) ==> $chansent[queue(ps.channels[i])] == old($chansent[queue(ps.channels[i])]) + (routes(ps.channels[i], channelName) ? 1 : 0)
+//@   ensures {C18} message: forall i int :: 0 <= i && i < len(ps.channels) && routes(ps.channels[i], channelName) ==> $chanlast[queue(ps.channels[i])] == boxed(message)
+//@   ensures {C18} noothers: forall q Ref :: !(exists i int :: 0 <= i && i < len(ps.channels) && queue(ps.channels[i]) == q) ==> $chansent[q] == old($chansent[q])
+//@   modifies $chansent, $chanlast
+//@   loop 0
+//@     invariant -1 <= rangeindex && rangeindex < len(ps.channels) && onlyrheld(ps.channelsRWMut)
+//@     invariant forall i int :: 0 <= i && i <= rangeindex ==> $chansent[queue(ps.channels[i])] == old($chansent[queue(ps.channels[i])]) + (routes(ps.channels[i], channelName) ? 1 : 0)
+//@     invariant forall i int :: 0 <= i && i <= rangeindex && routes(ps.channels[i], channelName) ==> $chanlast[queue(ps.channels[i])] == boxed(message)
+//@     invariant forall i int :: rangeindex < i && i < len(ps.channels) ==> $chansent[queue(ps.channels[i])] == old($chansent[queue(ps.channels[i])])
+//@     invariant forall q Ref :: !(exists i int :: 0 <= i && i < len(ps.channels) && queue(ps.channels[i]) == q) ==> $chansent[q] == old($chansent[q])
